@@ -29,7 +29,10 @@ run_demo() {
   rc=0
   for d in $DIRS; do
     if [ "$d" = zzdemo ]; then (cd "$WT" && go run ./zzdemo >/dev/null 2>&1) || rc=1
-    else (cd "$WT" && go test -vet=off -count=1 -run 'Demo|demo|Mut|M[0-9]' ./$d/ >/dev/null 2>&1) || rc=1; fi
+    else
+      names=$(cat "$D"/*_test.go 2>/dev/null | sed -n 's/^func \(Test[A-Za-z0-9_]*\)(.*/\1/p' | sort -u | paste -sd'|')
+      [ -z "$names" ] && names=Demo
+      (cd "$WT" && go test -vet=off -count=1 -run "^($names)\$" ./$d/ >/dev/null 2>&1) || rc=1; fi
   done
   return $rc
 }
